@@ -40,10 +40,10 @@ def run(ctx):
                 pts.append(t)
             cfg["times"], cfg["start"] = pts, 0
         if k % 8 == 3 and cfg["times"] and cfg["start"] > NANTICK:
-            # a readout time that is not a number, after the first one (every comparison with it is false): the
+            # a readout time that is not a number, at any position (every comparison with it is false): the
             # schedule is not increasing and must be refused whichever way it arrives
             cfg["times"] = list(cfg["times"])
-            cfg["times"].insert(ctx.rng.randint(1, len(cfg["times"])), NANTICK)
+            cfg["times"].insert(ctx.rng.randint(0, len(cfg["times"])), NANTICK)
             jobs.append(dict(cfg=cfg, readout_how=("list", "setter")[k % 16 == 3], kind=ctx.rng.choice(["ccd", "cmos", "mkid", "apd"])))
             continue
         jobs.append(dict(cfg=cfg, readout_how=ctx.rng.choice(HOWS), kind=ctx.rng.choice(["ccd", "cmos", "mkid", "apd"])))
